@@ -15,7 +15,7 @@ from checks import c19_runner as R
 
 CL_TEMP = "inplace-temp-left-after-direct-exit"
 JOBS = max(1, int(os.environ.get("VERIF_JOBS", "2")))      # parallel traced runs / coqc processes
-OC = {"Missing": 0, "RefusedEarly": 1, "CreateFails": 2, "RefusedAfterCreate": 3, "StreamFails": 4, "CloseFails": 5,
+OC = {"WrapCloseFails": 9, "Missing": 0, "RefusedEarly": 1, "CreateFails": 2, "RefusedAfterCreate": 3, "StreamFails": 4, "CloseFails": 5,
       "RenameFails": 6, "ChmodFails": 7, "Succeeds": 8}
 
 
@@ -80,6 +80,95 @@ def is_temp(n):
     return os.path.basename(n).startswith("mlr-in-place-")
 
 
+def pmap(fn, items):
+    """run fn over items with at most JOBS threads (the work is in child processes)"""
+    from concurrent.futures import ThreadPoolExecutor
+    items = list(items)
+    if JOBS <= 1 or len(items) <= 1:
+        return [fn(x) for x in items]
+    with ThreadPoolExecutor(max_workers=JOBS) as ex:
+        return list(ex.map(fn, items))
+
+
+def run_with_fsize_limit(ctx, files, args, limit, names=None, timeout=60):
+    """mlr -I in a fresh scratch directory with RLIMIT_FSIZE = limit bytes (writes beyond it fail with EFBIG: Go ignores SIGXFSZ)"""
+    import resource, subprocess
+    names = [f[0] for f in files] if names is None else list(names)
+    scratch = R._mk_scratch(files)
+    try:
+        e = dict(os.environ); e["MLRRC"] = "__none__"
+        try:
+            p = subprocess.run([ctx.mlr(), "-I"] + list(args) + names, cwd=scratch, env=e, stdin=subprocess.DEVNULL, capture_output=True, timeout=timeout,
+                               preexec_fn=lambda: resource.setrlimit(resource.RLIMIT_FSIZE, (limit, limit)))
+            st, err = ("killed" if p.returncode < 0 else p.returncode), p.stderr.decode("latin1")[-2000:]
+        except subprocess.TimeoutExpired:
+            st, err = "hang", ""
+        return {"status": st, "stderr": err, "snapshot": R.snapshot(scratch), "trace": [], "injected": True}
+    finally:
+        shutil.rmtree(scratch, ignore_errors=True)
+
+
+def incompressible_csv(rng, nrows):
+    rows = ["a,b,c"] + ["%d,%032x,%032x" % (i, rng.getrandbits(128), rng.getrandbits(128)) for i in range(nrows)]
+    return ("\n".join(rows) + "\n").encode()
+
+
+def compressed_write_failures(ctx, observe):
+    """EVERY write call of a run on a compressed input is made to fail in turn (ptrace: ENOSPC / EFBIG / EIO), and the run is
+    repeated under RLIMIT_FSIZE limits below the output size.  The writes issued from Close() of the gzip/zlib/zstd wrapper
+    (buffered tail + trailer; for small inputs ALL the data) are the interesting ones: a failure there must be reported and
+    must leave the original, exactly like a failure inside the stream (outcome WrapCloseFails of the model)."""
+    rng = ctx.rng
+    sizes = [("tiny", 3), ("small", 60), ("large", 1200)] + ([("huge", 9000)] if ctx.tier == "thorough" else [])
+    encs = [("gz", "f.csv.gz", ["--csv", "cat"], lambda b: gzip.compress(b, mtime=0)), ("z", "g.csv.z", ["--csv", "cat"], zlib.compress),
+            ("zst", "k.csv.zst", ["--csv", "cat"], lambda b: zstd(ctx, b)), ("gzin", "noext", ["--gzin", "--csv", "cat"], lambda b: gzip.compress(b, mtime=0)),
+            ("plain", "p.csv", ["--icsv", "--ojson", "cat"], lambda b: b)]
+    errs = ["ENOSPC", "EFBIG", "EIO"]
+    k = 0
+    for enc, name, args, comp in encs:
+        for sname, nrows in sizes:
+            if ctx.tier == "quick" and ((enc in ("gzin", "plain", "z") and sname != "small") or (enc == "zst" and sname == "tiny")):
+                continue
+            content = comp(incompressible_csv(rng, nrows))
+            if not content:
+                continue
+            files = [(name, content, 0o640)]
+            base = Scenario("wfail:%s-%s" % (enc, sname), args, files, ["Succeeds"])
+            expected_transforms(ctx, base)
+            clean = R.trace_run(ctx, files, args)
+            W = clean["counts"].get("write", 0)
+            ctx.cov.setdefault("compressed_write_counts", {})[base.name] = W
+            sizes_w = [e_[3] for e_ in project_trace(clean.get("trace") or []) if e_[0] == 2]
+            # (a) ptrace: a few of the write calls fail with ENOSPC / EIO / EFBIG (slow engine: ~1 s per run)
+            ns = list(range(1, W + 1)) if (W <= 4 or ctx.tier == "thorough") else sorted({1, 2, W - 1, W})
+            tasks = []
+            for n in ns:
+                e = errs[k % 3]; k += 1
+                sc = Scenario("wfail:%s-%s:write#%d-of-%d" % (enc, sname, n, W), args, files, ["StreamFails" if (enc == "plain" or n == 1) else "WrapCloseFails"])
+                sc.transformed = base.transformed
+                tasks.append((sc, ("error", "write", e, n)))
+            for (sc, inj), res in zip(tasks, pmap(lambda t: R.run_inplace(ctx, files, args, inject=t[1]), tasks)):
+                if not res.get("injected"):
+                    ctx.dist("inject-did-not-fire")
+                    continue
+                observe(sc, res, False, "ptrace: write #%d of %d returns %s (mlr -I %s %s)" % (inj[3], W, inj[2], " ".join(args), name), inj)
+            # (b) RLIMIT_FSIZE at EVERY write boundary: with the limit equal to the bytes written before write #n, exactly write #n
+            #     fails (EFBIG, nothing written); plus limits inside a write (short write, then EFBIG).  Direct runs: fast.
+            new = base.transformed.get(name, b"")
+            bounds = [sum(sizes_w[:i]) for i in range(len(sizes_w))]
+            if len(bounds) > 24 and ctx.tier == "quick":
+                bounds = sorted(set(bounds[:5] + bounds[-10:] + rng.sample(bounds[5:-10], 9)))
+            inside = [l for l in (1024, len(new) // 2, len(new) - 1) if 0 < l < len(new)]
+            for limit in sorted(set(bounds + inside)):
+                if limit >= len(new):
+                    continue
+                sc = Scenario("wfail:%s-%s:RLIMIT_FSIZE=%d-of-%d" % (enc, sname, limit, len(new)), args, files, ["StreamFails" if enc == "plain" else "WrapCloseFails"])
+                sc.transformed = base.transformed
+                res = run_with_fsize_limit(ctx, files, args, limit)
+                observe(sc, res, False, "ulimit -f (bytes) %d; mlr -I %s %s   (output needs %d bytes; write sizes %s)" % (
+                    limit, " ".join(args), name, len(new), sizes_w[:6] + (["..."] if len(sizes_w) > 6 else [])), None)
+
+
 class Scenario:
     def __init__(self, name, args, files, outcomes, names=None, decode=None):
         self.name, self.args, self.files, self.outcomes = name, args, files, outcomes      # files: [(name, bytes, mode)]
@@ -105,7 +194,7 @@ def build_plan(sc, snap, killed):
                 and (snap[n][0] != new or True):
             t = temps[0]
             tb = snap[t][0]
-            if oc == "StreamFails":
+            if oc in ("StreamFails", "WrapCloseFails"):
                 assigned.add(t); tname = t; chunks = [tb] if tb else []
             elif new.startswith(tb):
                 assigned.add(t); tname = t
@@ -325,7 +414,7 @@ def run(ctx):
                        "head/NR/FNR/FILENAME, begin/end per file, sort, .gz/.z suffix, --gzin/--zin), failure in the MIDDLE file through the error path "
                        "(malformed CSV, CSV schema change in the writer, DSL redirect error), direct-exit DSL failures (asserting_*, UDF return type), refusals "
                        "(bzip2, --prepipe, --prepipex, missing file, URL-looking name); zstd by suffix and --zstdin rewritten compressed; each returned run, plus ptrace fault injection of one failing "
-                       "system call (ENOSPC write, EACCES temp create, EIO close, EXDEV rename, EPERM chmod; first and middle file), plus SIGKILL at the entry of "
+                       "system call (ENOSPC write, EACCES temp create, EIO close, EXDEV rename, EPERM chmod; first and middle file), plus a failure (ENOSPC/EFBIG/EIO) of EVERY write call in turn and RLIMIT_FSIZE limits for gz/zlib/zstd/--gzin/plain inputs of 3 sizes (incl. the writes issued from the compressor's Close()), plus SIGKILL at the entry of "
                        "EVERY file system call of 2-3-file runs (all crash points; subsampled for the multi-chunk output in quick tier). Compared: bytes+mode of "
                        "every file in the directory vs Model.exec / the set of Model.crash_state prefixes, under vm_compute.")
     ctx.cov["trusted_base"] = ["Coq 8.16.1 kernel + vm_compute", "no axioms", "python harness + c19_runner ptrace supervisor (x86_64 syscall-entry stops; "
@@ -348,8 +437,12 @@ def run(ctx):
             return
         bad = oracle(ctx, sc, res, killed, how)
         entries, obs = build_plan(sc, snap, killed)
-        terms.append(coq_case(0 if killed else 1, sc, entries, obs))
-        meta.append((sc, res, killed, how, inject, bool(bad)))
+        binary = sum(len(c) for _, c, _ in sc.files if not all((32 <= x < 127) or x == 10 for x in c))
+        if binary <= 600:                    # binary contents are costly as Coq literals: larger compressed files are oracle + trace only
+            terms.append(coq_case(0 if killed else 1, sc, entries, obs))
+            meta.append((sc, res, killed, how, inject, bool(bad)))
+        else:
+            ctx.dist("snapshot-oracle-only(large binary)")
         tterm, ev = trace_case(sc, res, killed)
         if tterm:
             tterms.append(tterm)
@@ -368,13 +461,15 @@ def run(ctx):
             seen[bad[0][0]] = seen.get(bad[0][0], 0) + 1
             if bad[0][0] == CL_TEMP and seen[bad[0][0]] > 1:
                 return                       # same class: one witness is enough
-            nviol += 1
+            if bad[0][0] != CL_TEMP:
+                nviol += 1                   # the known class does not use up the reporting budget
             report(ctx, sc, res, bad, how, inject)
 
     with ctx.timed("impl"):
-        for sc in S:
+        def returned(sc):
             expected_transforms(ctx, sc)
-            res = R.trace_run(ctx, sc.files, sc.args, names=sc.names)          # to completion, under the ptrace supervisor (for the trace)
+            return R.trace_run(ctx, sc.files, sc.args, names=sc.names)         # to completion, under the ptrace supervisor (for the trace)
+        for sc, res in zip(S, pmap(returned, S)):
             observe(sc, res, False, "mlr -I " + " ".join(sc.args) + " " + " ".join(sc.names))
         # ---- fault injection: one failing system call
         rng = ctx.rng
@@ -386,6 +481,7 @@ def run(ctx):
             ctx.cov.setdefault("clean_syscall_counts", {})[sc.name] = clean["counts"]
             plans = [("write", "ENOSPC", 1, "StreamFails"), ("openat", "EACCES", 1, "CreateFails"), ("renameat", "EXDEV", 1, "RenameFails"),
                      ("fchmodat", "EPERM", 1, "ChmodFails"), ("close", "EIO", None, "CloseFails")]
+            tasks = []
             for which in ([0, 1] if nf > 1 else [0]):
                 for s, e, k, oc in plans:
                     if s not in per or per[s] == 0:
@@ -395,11 +491,14 @@ def run(ctx):
                     outcomes = ["Succeeds"] * which + [oc] + ["Succeeds"] * (nf - which - 1)
                     sc2 = Scenario("inject:%s-%s-file%d:%s" % (s, e, which, sc.name), sc.args, sc.files, outcomes, names=sc.names)
                     sc2.transformed = sc.transformed
-                    res = R.run_inplace(ctx, sc.files, sc.args, names=sc.names, inject=("error", s, e, n))
-                    if not res.get("injected"):
-                        ctx.dist("inject-did-not-fire")
-                        continue
-                    observe(sc2, res, False, "ptrace: %s #%d returns %s" % (s, n, e), ("error", s, e, n))
+                    tasks.append((sc2, ("error", s, e, n)))
+            for (sc2, inj), res in zip(tasks, pmap(lambda t: R.run_inplace(ctx, t[0].files, t[0].args, names=t[0].names, inject=t[1]), tasks)):
+                if not res.get("injected"):
+                    ctx.dist("inject-did-not-fire")
+                    continue
+                observe(sc2, res, False, "ptrace: %s #%d returns %s" % (inj[1], inj[3], inj[2]), inj)
+        # ---- write failures at every write call, compressed inputs of several sizes (+ RLIMIT_FSIZE)
+        compressed_write_failures(ctx, observe)
         # ---- crash points
         crash_sc = [S[0], next(s for s in S if s.name == "success:gz-suffix"), next(s for s in S if s.name == "fail:malformed-input-middle")]
         if ctx.tier == "thorough":
